@@ -238,9 +238,13 @@ func c03ring(r *h.Rand, bx, by int, ccw bool) orb.Ring {
 		ring := make(orb.Ring, n)
 		cx, cy := bx+r.Range(-1<<20, 1<<20), by+r.Range(-1<<20, 1<<20)
 		rad := []int{3, 50, 4000, 1 << 22}[r.Intn(4)]
+		arbitrary := r.P(1, 4) // an arbitrary vertex list (usually crossing itself): its winding is the sign of its shoelace sum
 		for i := range ring {
 			a := 2 * math.Pi * (float64(i) + r.Uniform(0, 0.8)) / float64(n)
 			ring[i] = orb.Point{float64(cx + int(float64(rad)*r.Uniform(0.4, 1)*math.Cos(a))), float64(cy + int(float64(rad)*r.Uniform(0.4, 1)*math.Sin(a)))}
+			if arbitrary {
+				ring[i] = orb.Point{float64(cx + r.Range(-rad, rad)), float64(cy + r.Range(-rad, rad))}
+			}
 		}
 		s := shoelaceSignI(ring)
 		dup := false
